@@ -812,72 +812,96 @@ func init() {
 
 func ruleIter9(c *Ctx) []*Ob {
 	o := newObs(c, "ITER-9")
-	f := c.Fn("(*segmentStack).startIterator")
-	fn := c.fname(f)
+	si := c.Fn("(*segmentStack).startIterator")
 	fCur := c.Field("iterator", "cursors")
 	n := 0
-	eachInstr(f, func(i ssa.Instruction) {
-		k, ok := i.(*ssa.Call)
-		if !ok || !k.Call.IsInvoke() || k.Call.Method.Name() != "Current" || typeName(k.Call.Value.Type()) != "SegmentCursor" {
-			return
-		}
-		n++
-		var op ssa.Value
-		if refs := k.Referrers(); refs != nil {
-			for _, r := range *refs {
-				if e, isE := r.(*ssa.Extract); isE && e.Index == 0 {
-					op = e
-				}
+	// startIterator itself, or a helper it calls that builds the per-segment cursor (loop body extracted)
+	cands := []*ssa.Function{si}
+	eachInstr(si, func(i ssa.Instruction) {
+		if call, ok := i.(*ssa.Call); ok {
+			if h := call.Call.StaticCallee(); h != nil && h.Pkg == c.Moss && h.Blocks != nil && h != si {
+				cands = append(cands, h)
 			}
 		}
-		bad := ""
-		walk(after(k), walkOpts{noInline: true,
-			visit: func(j ssa.Instruction, t *tracker) bool {
-				if bad != "" {
-					return true
-				}
-				if st, isSt := j.(*ssa.Store); isSt {
-					if fv, _ := asFieldAddr(st.Addr); fv == fCur {
-						return true // appended
+	})
+	for _, f := range cands {
+		fn := c.fname(f)
+		eachInstr(f, func(i ssa.Instruction) {
+			k, ok := i.(*ssa.Call)
+			if !ok || !k.Call.IsInvoke() || k.Call.Method.Name() != "Current" || typeName(k.Call.Value.Type()) != "SegmentCursor" {
+				return
+			}
+			if f != si && !returnsCursor(f) {
+				return
+			}
+			n++
+			var op ssa.Value
+			if refs := k.Referrers(); refs != nil {
+				for _, r := range *refs {
+					if e, isE := r.(*ssa.Extract); isE && e.Index == 0 {
+						op = e
 					}
 				}
-				if j == ssa.Instruction(k) {
-					bad = "the next source is reached"
-					return true
-				}
-				if _, isR := j.(*ssa.Return); isR {
-					return true
-				}
-				// leaving the loop over the segments without having appended: the heap is built without this source
-				if call, isC := j.(*ssa.Call); isC && isStaticCall(call, "container/heap", "Init") {
-					bad = "heap.Init is reached"
-					return true
-				}
-				return false
-			},
-			edge: func(from, to *ssa.BasicBlock, label string, cond ssa.Value, onTrue bool, _ *tracker) bool {
-				if bad != "" {
-					return true
-				}
-				b, isB := cond.(*ssa.BinOp)
-				if !isB || op == nil || (b.Op != token.EQL && b.Op != token.NEQ) {
+			}
+			bad := ""
+			walk(after(k), walkOpts{noInline: true,
+				visit: func(j ssa.Instruction, t *tracker) bool {
+					if bad != "" {
+						return true
+					}
+					if st, isSt := j.(*ssa.Store); isSt {
+						if fv, _ := asFieldAddr(st.Addr); fv == fCur {
+							return true // appended
+						}
+					}
+					if j == ssa.Instruction(k) {
+						bad = "the next source is reached"
+						return true
+					}
+					if r, isR := j.(*ssa.Return); isR {
+						// in a helper that hands the cursor back: "no cursor, no error" is the skip
+						if f != si && len(r.Results) >= 1 && isNilConst(r.Results[0]) && (len(r.Results) < 2 || isNilConst(r.Results[len(r.Results)-1])) {
+							bad = "the helper answers 'no cursor for this segment'"
+						}
+						return true
+					}
+					// leaving the loop over the segments without having appended: the heap is built without this source
+					if call, isC := j.(*ssa.Call); isC && isStaticCall(call, "container/heap", "Init") {
+						bad = "heap.Init is reached"
+						return true
+					}
 					return false
-				}
-				x, y := b.X, b.Y
-				if isZeroConst(x) {
-					x, y = y, x
-				}
-				return isZeroConst(y) && sameValue(x, op) && (b.Op == token.EQL) == onTrue
-			},
+				},
+				edge: func(from, to *ssa.BasicBlock, label string, cond ssa.Value, onTrue bool, _ *tracker) bool {
+					if bad != "" {
+						return true
+					}
+					b, isB := cond.(*ssa.BinOp)
+					if !isB || op == nil || (b.Op != token.EQL && b.Op != token.NEQ) {
+						return false
+					}
+					x, y := b.X, b.Y
+					if isZeroConst(x) {
+						x, y = y, x
+					}
+					return isZeroConst(y) && sameValue(x, op) && (b.Op == token.EQL) == onTrue
+				},
+			})
+			why := "a source is skipped only behind op == 0"
+			if bad != "" {
+				why = bad + " without this cursor having been appended and without the cursor having answered op == 0: a source whose first entry has an empty key and an empty value (or whatever else the test looks at) is dropped from the iteration although it has entries"
+			}
+			o.add(fn, "skip of a source after sc.Current()", c.instrPos(k), bad == "", why)
 		})
-		why := "a source is skipped only behind op == 0"
-		if bad != "" {
-			why = bad + " without this cursor having been appended and without the cursor having answered op == 0: a source whose first entry has an empty key and an empty value (or whatever else the test looks at) is dropped from the iteration although it has entries"
-		}
-		o.add(fn, "skip of a source after sc.Current()", c.instrPos(k), bad == "", why)
-	})
+	}
 	if n == 0 {
-		o.add(fn, "sc.Current()", c.pos(f.Pos()), false, "anchor lost: startIterator no longer asks the segment cursors for their first entry")
+		o.add(c.fname(si), "sc.Current()", c.pos(si.Pos()), false, "anchor lost: startIterator no longer asks the segment cursors for their first entry")
 	}
 	return o.list
+}
+
+// returnsCursor: the first result of f is a *cursor.
+func returnsCursor(f *ssa.Function) bool {
+	res := f.Signature.Results()
+	return res.Len() >= 1 && typeName(res.At(0).Type()) == "cursor"
 }
